@@ -234,19 +234,21 @@ func VerifC11_WholeGpuBind() {
 // VerifC11_FractionBind: the same for a fractional pod (one shared GPU group): reservation pod
 // creation, the watch for its GPU index (annotated / error event / closed channel / timeout), GPU
 // group label, config maps, visible-devices and portion settings, binding; rollback on failure.
-// BOUND: one fraction pod with 1 device, one node; at most 1 injected API failure or crash; 4 watch outcomes
+// BOUND: one fraction pod with 1 device, one node; at most 1 (quick) / 2 (thorough) injected API failures or a crash; 4 watch outcomes
 func VerifC11_FractionBind() {
-	vr.SetMaxFaults(1)
+	vr.SetMaxFaults(vr.Bound("maxFaultsFraction", 1, 2))
 	w := newC11World(true, 1)
 	w.st.CrashesOn = true
 	c11Check(w, "#fraction")
 }
 
-// VerifC11_MultiFractionBind_Thorough: a pod with two fractional devices (two GPU groups).
-// BOUND: one pod with 2 fractional devices; at most 1 injected API failure (no crash)
-func VerifC11_MultiFractionBind_Thorough() {
-	vr.SetMaxFaults(1)
+// VerifC11_MultiFractionBind: a pod with two fractional devices (two GPU groups; its labels are the
+// per-group runai-gpu-group/<group> ones only).
+// BOUND: one pod with 2 fractional devices; at most 1 injected API failure (quick) / 2 injected API failures or a crash before a solver-chosen call (thorough)
+func VerifC11_MultiFractionBind() {
+	vr.SetMaxFaults(vr.Bound("maxFaultsMultiFraction", 1, 2))
 	w := newC11World(true, 2)
+	w.st.CrashesOn = vr.Bound("crashPointsMultiFraction", 0, 1) == 1
 	c11Check(w, "#multi-fraction")
 }
 
